@@ -71,11 +71,13 @@ CLAIMS = {
         technique="Lean 4 proof (induction over the line fold with a zipper invariant) + kernel-checked counterexample + differential correspondence",
         design="DESIGN.md §5 C03"),
     'C08': dict(
-        text="Same theorems as C03 for order preservation and determinism (every structure, every input). Soundness (each element a declared child), equality of "
+        text="Same theorems as C03 for order preservation and determinism (every structure, every input), plus C08_sound: every group node of the resulting tree is a declared "
+             "group row of the element it sits in, with exactly the declared structure, at every depth (zipper invariant preserved by every step; mutual induction over the "
+             "reference search). That each SEGMENT is a declared child of its group, equality of "
              "encodings with groups on/off, and exactness of the tree for unique-name structures are decided by the correspondence and the implementation-side "
              "oracle over instances derived from the structures (thorough: every structure of every version); exactness is false for non-anchored repeatable groups "
              "(finding D16) and validation is impossible for structures with duplicate rows (finding D17).",
-        note=NOTE_COMMON + "Soundness and exactness are not theorems yet (partial).",
+        note=NOTE_COMMON + "Segment-level soundness and exactness are not theorems (partial).",
         technique="Lean 4 proof (zipper invariant) + differential correspondence on instances generated from every structure",
         design="DESIGN.md §5 C08"),
     'C07': dict(
